@@ -34,6 +34,10 @@ type Prog struct {
 	// Rich: operands and initialisers may be constant expressions of the rarer
 	// kinds, aggregate constants, poison (gen2.go).
 	Rich bool `json:"rich,omitempty"`
+	// ExplicitMD: metadata definitions carry explicit IDs from birth (printing
+	// assigns none), and "mdid" steps change them — possibly to an ID that is in
+	// use, which makes the module unprintable until a later step repairs it.
+	ExplicitMD bool `json:"explicit_md,omitempty"`
 }
 
 // Step is one construction or editing step.
@@ -95,7 +99,7 @@ var namePool = []string{"", "", "", "x", "y", "tmp", "val", "res", "a b", "p.q",
 
 // genProgram draws a program.
 func genProgram(r *rng, p genParams) *Prog {
-	pr := &Prog{IllFormed: p.IllFormed && !p.Literal, Literal: p.Literal, Rich: r.chance(1, 2)}
+	pr := &Prog{IllFormed: p.IllFormed && !p.Literal, Literal: p.Literal, Rich: r.chance(1, 2), ExplicitMD: p.Metadata && r.chance(1, 4)}
 	disabled := map[string]bool{}
 	var allowedKinds []int
 	if p.Swarm {
@@ -237,6 +241,9 @@ func genProgram(r *rng, p genParams) *Prog {
 		case x < 95:
 			add(Step{Op: "remove", A: sel(), B: sel(), C: sel()})
 		case p.Metadata && x < 98:
+			if pr.ExplicitMD && r.chance(1, 3) {
+				add(Step{Op: "mdid", A: sel(), B: sel()})
+			}
 			add(Step{Op: "md", K: r.intn(4), A: sel(), B: sel(), C: sel(), D: sel(), Name: name()})
 		default:
 			if p.Metadata {
@@ -325,6 +332,8 @@ type machine struct {
 	// instruction: the Block.New* method appends by itself (viaUsed).
 	viaBlock *ir.Block
 	viaUsed  bool
+	// explicitMD: see Prog.ExplicitMD.
+	explicitMD bool
 }
 
 type mfunc struct {
@@ -1725,11 +1734,27 @@ func (mc *machine) exec1(s Step) bool {
 			mc.probes["instruction removed after a print"]++
 		}
 		return true
+	case "mdid":
+		// The explicit ID of a metadata definition changed to another small number:
+		// a free one, or one that another definition has (the module cannot be
+		// printed then, until a later step of this kind resolves the clash).
+		if !mc.explicitMD || len(mc.mds) == 0 {
+			return false
+		}
+		md := mc.mds[s.A%len(mc.mds)]
+		md.MetadataID = metadata.MetadataID(s.B % (2*len(mc.mds) + 2))
+		if mc.mdClash() {
+			mc.probes["two metadata definitions carry the same explicit ID"]++
+		}
+		return true
 	case "md":
 		switch s.K % 4 {
 		case 0, 1:
 			// New unnumbered metadata tuple definition.
 			md := &metadata.Tuple{MetadataID: -1}
+			if mc.explicitMD {
+				md.MetadataID = metadata.MetadataID(2*len(mc.mds) + 1)
+			}
 			md.Fields = append(md.Fields, &metadata.String{Value: fmt.Sprintf("md%d", s.A%17)})
 			if len(mc.mds) > 0 && s.B%2 == 0 {
 				md.Fields = append(md.Fields, mc.mds[s.B%len(mc.mds)])
@@ -1779,10 +1804,17 @@ func (mc *machine) exec1(s Step) bool {
 			if s.B%2 == 1 {
 				name = fmt.Sprintf("nm%d", s.B%5)
 			}
-			nd := mc.m.NamedMetadataDefs[name]
+			key := name
+			if s.C%5 == 4 {
+				// a second contribution to the same named metadata kept under a key of
+				// its own (the map key is only a handle; what is printed is Name)
+				key = name + ".more"
+				mc.probes["named metadata stored under a key other than its name"]++
+			}
+			nd := mc.m.NamedMetadataDefs[key]
 			if nd == nil {
 				nd = &metadata.NamedDef{Name: name}
-				mc.m.NamedMetadataDefs[name] = nd
+				mc.m.NamedMetadataDefs[key] = nd
 			}
 			nd.Nodes = append(nd.Nodes, mc.mds[s.A%len(mc.mds)])
 		}
@@ -1831,7 +1863,34 @@ func funcPrintable(f *ir.Func) bool {
 	return true
 }
 
+// mdClash reports whether two metadata definitions carry the same explicit ID.
+func (mc *machine) mdClash() bool {
+	if !mc.explicitMD {
+		return false
+	}
+	seen := map[int64]bool{}
+	for _, md := range mc.mds {
+		if md.MetadataID >= 0 && seen[int64(md.MetadataID)] {
+			return true
+		}
+		seen[int64(md.MetadataID)] = true
+	}
+	return false
+}
+
+// failingPrint attempts a print that cannot succeed in the current state of the
+// IR (a block without terminator, two metadata definitions with one ID): the
+// panic is the caller's to recover, and nothing of the attempt may stay behind.
+func (mc *machine) failingPrint(what string, f func()) {
+	if pan, _ := protect(f); pan {
+		mc.probes["print attempted while the IR cannot be printed (panic recovered): "+what]++
+	}
+}
+
 func (mc *machine) modulePrintable() bool {
+	if mc.mdClash() {
+		return false
+	}
 	for _, f := range mc.funcs {
 		if !funcPrintable(f.f) {
 			return false
@@ -1854,12 +1913,20 @@ func (mc *machine) observe(o Obs) (applied bool, bad string) {
 	switch o.K % len(obsNames) {
 	case 0:
 		if !mc.modulePrintable() {
+			if o.A%3 == 0 {
+				mc.failingPrint("m.String", func() { _ = mc.m.String() })
+				return true, ""
+			}
 			return false, ""
 		}
 		mc.printedOnce = true
 		return true, twice("m.String()", func() string { return mc.m.String() })
 	case 1:
 		if !mc.modulePrintable() {
+			if o.A%3 == 0 {
+				mc.failingPrint("m.WriteTo", func() { var buf bytes.Buffer; mc.m.WriteTo(&buf) })
+				return true, ""
+			}
 			return false, ""
 		}
 		mc.printedOnce = true
@@ -1870,6 +1937,10 @@ func (mc *machine) observe(o Obs) (applied bool, bad string) {
 		})
 	case 2:
 		f := mc.fn(o.A)
+		if f != nil && !funcPrintable(f.f) && o.B%3 == 0 {
+			mc.failingPrint("f.LLString", func() { _ = f.f.LLString() })
+			return true, ""
+		}
 		if f == nil || !funcPrintable(f.f) {
 			return false, ""
 		}
@@ -1877,6 +1948,10 @@ func (mc *machine) observe(o Obs) (applied bool, bad string) {
 	case 3:
 		f := mc.fn(o.A)
 		b := mc.block(f, o.B)
+		if b != nil && b.Term == nil && o.C%3 == 0 {
+			mc.failingPrint("b.LLString", func() { _ = b.LLString() })
+			return true, ""
+		}
 		if b == nil || b.Term == nil {
 			return false, ""
 		}
@@ -2030,6 +2105,7 @@ func runProgramAlone(p *Prog) (m *ir.Module, mc *machine, err error) {
 	mc.illFormed = p.IllFormed
 	mc.literal = p.Literal
 	mc.richConsts = p.Rich
+	mc.explicitMD = p.ExplicitMD
 	if pan, msg := protect(func() {
 		for _, s := range p.Steps {
 			mc.exec(s)
